@@ -1173,14 +1173,18 @@ func rtpExtensionsFromMediaDescription(m *sdp.MediaDescription) (map[string]int,
 // https://tools.ietf.org/html/draft-ietf-rtcweb-jsep-25#section-5.2.2
 func updateSDPOrigin(origin *sdp.Origin, descr *sdp.SessionDescription) {
 	if atomic.CompareAndSwapUint64(&origin.SessionVersion, 0, descr.Origin.SessionVersion) { // store
+		verifYield("origin.won")
 		atomic.StoreUint64(&origin.SessionID, descr.Origin.SessionID)
 	} else { // load
+		verifYield("origin.lost")
 		for { // awaiting for saving session id
 			descr.Origin.SessionID = atomic.LoadUint64(&origin.SessionID)
 			if descr.Origin.SessionID != 0 {
 				break
 			}
+			verifYield("origin.spin")
 		}
+		verifYield("origin.loaded")
 		descr.Origin.SessionVersion = atomic.AddUint64(&origin.SessionVersion, 1)
 	}
 }
